@@ -8,8 +8,49 @@ thread_local! {
     pub static QUEUE: std::cell::RefCell<std::collections::VecDeque<Vec<u8>>> = Default::default();
 }
 
+/// pattern mode (native sweep): when set, symbolic inputs are generated from a palette of boundary words instead of being
+/// popped from the replay queue; every generated input is recorded in `DRAWN` so that a failing run can be replayed exactly.
+#[cfg(not(kani))]
+thread_local! {
+    pub static PATTERN: std::cell::Cell<Option<u64>> = const { std::cell::Cell::new(None) };
+    pub static DRAWN: std::cell::RefCell<Vec<Vec<u8>>> = Default::default();
+}
+
+#[cfg(not(kani))]
+fn mix(mut x: u64) -> u64 {
+    // splitmix64
+    x = x.wrapping_add(0x9e37_79b9_7f4a_7c15);
+    let mut z = x;
+    z = (z ^ (z >> 30)).wrapping_mul(0xbf58_476d_1ce4_e5b9);
+    z = (z ^ (z >> 27)).wrapping_mul(0x94d0_49bb_1331_11eb);
+    z ^ (z >> 31)
+}
+
+#[cfg(not(kani))]
+fn pattern_bytes(run: u64, draw: u64, n: usize) -> Vec<u8> {
+    const PAL: [u64; 20] = [0, 1, 2, 3, 0x7f, 0x80, 0xff, 0x100, 0x7fff_ffff, 0x8000_0000, 0xffff_ffff, 0x1_0000_0000,
+        0x7fff_ffff_ffff_ffff, 0x8000_0000_0000_0000, 0x8000_0000_0000_0001, 0xffff_ffff_ffff_fffe, u64::MAX, 10, 0x3f, 0x40];
+    let mut out = Vec::with_capacity(n);
+    let mut k = 0u64;
+    while out.len() < n {
+        let h = mix(run.wrapping_mul(0x1_0000_0001).wrapping_add(draw.wrapping_mul(977)).wrapping_add(k));
+        // early runs: palette only (boundary patterns); later runs: one word in four is pseudo-random
+        let w = if run >= 64 && h & 3 == 0 { mix(h) } else { PAL[(h >> 8) as usize % PAL.len()] };
+        out.extend_from_slice(&w.to_le_bytes());
+        k += 1;
+    }
+    out.truncate(n);
+    out
+}
+
 #[cfg(not(kani))]
 fn pop(n: usize) -> Vec<u8> {
+    if let Some(run) = PATTERN.with(|p| p.get()) {
+        let draw = DRAWN.with(|d| d.borrow().len() as u64);
+        let v = pattern_bytes(run, draw, n);
+        DRAWN.with(|d| d.borrow_mut().push(v.clone()));
+        return v;
+    }
     QUEUE.with(|q| {
         let v = q.borrow_mut().pop_front().expect("REPLAY: input queue exhausted");
         assert_eq!(v.len(), n, "REPLAY: input width mismatch");
@@ -81,7 +122,14 @@ pub fn reached() {
 
 /// an arbitrary *canonical* Uint (the type invariant is a precondition)
 pub fn uint<const B: usize, const L: usize>() -> Uint<B, L> {
-    let limbs: [u64; L] = any();
+    #[allow(unused_mut)]
+    let mut limbs: [u64; L] = any();
+    // native execution (sweep and replay): the limbs are made canonical instead of being rejected - a no-op for the values of a
+    // Kani counterexample (they satisfy the assumption below), and it lets the inputs recorded by a sweep be replayed as they are
+    #[cfg(not(kani))]
+    if L > 0 {
+        limbs[L - 1] &= Uint::<B, L>::MASK;
+    }
     if L > 0 {
         assume(limbs[L - 1] <= Uint::<B, L>::MASK);
     }
